@@ -52,7 +52,11 @@ def _corpus_messages():
             '<newTextVector device="CAM" name="T"><oneText name="a">x &gt; y</oneText><oneText name="b">z</oneText></newTextVector>',
             '<setNumberVector device="CAM" name="N" state="Ok"><oneNumber name="n">1.5</oneNumber></setNumberVector>',
             '<defSwitchVector device="CAM" name="S" state="Idle" perm="rw" rule="OneOfMany"><defSwitch name="a">On</defSwitch></defSwitchVector>',
-            '<delProperty device="CAM"/>', '<message device="CAM" message="hi"/>']
+            '<delProperty device="CAM"/>', '<message device="CAM" message="hi"/>',
+            # legal XML a foreign peer may send: raw '>' in text and attribute values, comments and processing instructions inside an element
+            '<newTextVector device="CAM" name="alt > 15"><oneText name="a">a -> b >> c</oneText></newTextVector>',
+            '<setTextVector device="CAM" name="T" state="Ok"><!-- note > here --><oneText name="a">x</oneText><?pi data > ?></setTextVector>',
+            '<pingRequest uid="1"/>']
 
 
 @kind("buffer.junk_corpus")
@@ -110,6 +114,36 @@ def junk_corpus(w):
                              "witness": {"replay_kind": "buffer.stream", "pieces": pieces, "threshold": th}, "reproduced": True})
         if len(failures) >= 3:
             break
+    # recovery from a truncated element: every later valid message is delivered once the threshold is exceeded
+    pings = ['<pingRequest uid="%d"/>' % i for i in range(120)]
+    for th in (128, 2048):
+        for m in msgs[:4] + msgs[8:10]:
+            for cut in sorted(set(list(range(1, min(len(m), 40))) + [len(m) // 2, len(m) - 1])):
+                for piece in (None, 7, 64):
+                    if len(failures) >= 3:
+                        break
+                    n_p = (th // len(pings[0])) + 4
+                    stream = m[:cut] + "".join(pings[:n_p])
+                    pieces = [stream] if piece is None else [stream[i:i + piece] for i in range(0, len(stream), piece)]
+                    b = Buffer()
+                    b.max_buffer_size_before_frontal_cleanup = th
+                    got = []
+                    cases += 1
+                    try:
+                        for p in pieces:
+                            b.append(p)
+                            b.process(got.append)
+                    except Exception as e:
+                        failures.append({"detail": "raised %r" % (e,), "witness": {"replay_kind": "buffer.stream", "pieces": pieces, "threshold": th}, "reproduced": True})
+                        continue
+                    want = [IndiMessage.from_string(x) for x in pings[:n_p]]
+                    # the truncated front may swallow nothing but itself: all pings arrive (a truncation that happens to be
+                    # well-formed together with following text is not constructed here: the cut is inside the element)
+                    tail = [x for x in got if x in want]
+                    if tail != want:
+                        failures.append({"detail": "after an element truncated at %d characters, %d of the %d following valid messages were delivered (threshold %d)"
+                                         % (cut, len(tail), len(want), th),
+                                         "witness": {"replay_kind": "buffer.stream", "pieces": pieces, "threshold": th, "expect_tail": pings[:n_p]}, "reproduced": True})
     return {"cases": cases, "failures": failures}
 
 
@@ -135,6 +169,10 @@ def buffer_stream(w):
         return {"reproduced": True, "detail": "does not terminate"}
     except Exception as e:
         return {"reproduced": True, "detail": "raised %r" % (e,)}
+    if w.get("expect_tail") is not None:
+        exp = [IndiMessage.from_string(m) for m in w["expect_tail"]]
+        tail = [x for x in got if x in exp]
+        return {"reproduced": tail != exp, "detail": "%d of the %d valid messages after the truncated element were delivered" % (len(tail), len(exp))}
     want = w.get("expect")
     if want is not None:
         exp = [IndiMessage.from_string(m) for m in want]
